@@ -179,6 +179,16 @@ def verdict (name : String) (b : Bool) : String :=
 
 def unparsed : String := "specfail C17/unparsed"
 
+/-- a predicate of two valid ranges -/
+def pairOp (ws os : List String) (name : String) (f : Nat × Nat → Nat × Nat → Bool → Bool) : String :=
+  match rangeArg? ws "s" "e", rangeArg? ws "s2" "e2" with
+  | some a, some b =>
+    if !Lumina.Spec.C17.validR a || !Lumina.Spec.C17.validR b then "specskip" else
+    match parseBool os with
+    | some o => verdict name (f a b o)
+    | none => verdict name false
+  | _, _ => unparsed
+
 /-- The checkers of `Spec/C17.lean` speak about operations on a *canonical* value; an operand
     that is not canonical (only constructible through `from_vec`, which is itself checked by
     `specFromVec`) makes the case a `specskip`. -/
@@ -291,8 +301,48 @@ def spec (st : St) (op : String) (obs : String) : String :=
   | "sub" :: _ => onVal "difference" (S x && S y) (Lumina.Spec.C17.specDiff x y)
   | "and" :: _ => onVal "intersection" (S x && S y) (Lumina.Spec.C17.specInter x y)
   | "not" :: _ => onVal "complement" (S x) (Lumina.Spec.C17.specCompl x)
-  -- helper-level operations (find_affected_ranges, single-range methods) are internal
-  -- mechanisms, not set operations: they are tied by the model/implementation diff only
+  -- helper-level operations: specified on valid arguments (on invalid ranges the debug
+  -- assertions of the real code fire; that is outside the property and tied by the diff)
+  | "find" :: _ =>
+    match rangeArg? ws "s" "e" with
+    | some r =>
+      if !S x || !Lumina.Spec.C17.validR r then "specskip" else
+      match os with
+      | ["none"] => verdict "find" (Lumina.Spec.C17.specFind x r none)
+      | ["some", i, j] => match i.toNat?, j.toNat? with
+        | some i, some j => verdict "find" (Lumina.Spec.C17.specFind x r (some (i, j)))
+        | _, _ => unparsed
+      | _ => verdict "find" false
+    | none => unparsed
+  | "r_validate" :: _ =>
+    match rangeArg? ws "s" "e" with
+    | some r => verdict "r_validate"
+        (if Lumina.Spec.C17.validR r then os == ["ok"] else parseObs os == some (.errInvalid r))
+    | none => unparsed
+  | "r_len" :: _ =>
+    match rangeArg? ws "s" "e", os with
+    | some r, [n] => verdict "r_len" (Lumina.Spec.C17.specRangeLen r n.toNat?)
+    | _, _ => unparsed
+  | "r_adj" :: _ => pairOp ws os "r_adj" Lumina.Spec.C17.specRangeAdjacent
+  | "r_ovl" :: _ => pairOp ws os "r_ovl" Lumina.Spec.C17.specRangeOverlapping
+  | "r_left" :: _ => pairOp ws os "r_left" Lumina.Spec.C17.specRangeLeftOf
+  | "r_right" :: _ => pairOp ws os "r_right" Lumina.Spec.C17.specRangeRightOf
+  | "r_headn" :: _ =>
+    match rangeArg? ws "s" "e", natArg? ws "n", os with
+    | some r, some n, [o] =>
+      if !Lumina.Spec.C17.validR r then "specskip" else
+      match parseRange o with
+      | some out => verdict "r_headn" (Lumina.Spec.C17.specRangeHeadn r n out)
+      | none => unparsed
+    | _, _, _ => unparsed
+  | "r_tailn" :: _ =>
+    match rangeArg? ws "s" "e", natArg? ws "n", os with
+    | some r, some n, [o] =>
+      if !Lumina.Spec.C17.validR r then "specskip" else
+      match parseRange o with
+      | some out => verdict "r_tailn" (Lumina.Spec.C17.specRangeTailn r n out)
+      | none => unparsed
+    | _, _, _ => unparsed
   | _ => "specskip"
 
 def handler : Driver.Handler St := { init := [], step := step, spec := spec }
